@@ -30,6 +30,8 @@ type c05case struct {
 	reg       string // registered login
 	out       cbOutcome
 	fullClose bool // abandon: close both directions without reading
+	delayCb   time.Duration // the callback takes this long (a slow store / password hash)
+	delayMid  time.Duration // the client pauses this long after its first chunk
 	// observations
 	calls  []cbCall
 	reply  []byte
@@ -51,6 +53,9 @@ func (s *c05srv) cb(login, password, service, realm string) (bool, string, error
 	if cs == nil {
 		return false, "unknown", nil
 	}
+	if cs.delayCb > 0 {
+		time.Sleep(cs.delayCb)
+	}
 	if cs.out.err != nil {
 		return cs.out.ok, string(cs.out.msg), errors.New(string(cs.out.err))
 	}
@@ -65,12 +70,15 @@ func (c *ctx) runConn(sock string, cs *c05case) {
 	}
 	defer conn.Close()
 	uc := conn.(*net.UnixConn)
-	for _, ch := range cs.chunks {
+	for k, ch := range cs.chunks {
 		if len(ch) == 0 {
 			continue
 		}
 		if _, err := uc.Write(ch); err != nil {
 			break // the server may already have answered and closed (over-long prefix, complete request)
+		}
+		if k == 0 && cs.delayMid > 0 {
+			time.Sleep(cs.delayMid)
 		}
 		if cs.pauses {
 			time.Sleep(time.Duration(200+c.r.Intn(1500)) * time.Microsecond)
@@ -82,7 +90,7 @@ func (c *ctx) runConn(sock string, cs *c05case) {
 		return
 	}
 	uc.CloseWrite()
-	uc.SetReadDeadline(time.Now().Add(5 * time.Second))
+	uc.SetReadDeadline(time.Now().Add(5*time.Second + cs.delayCb + cs.delayMid))
 	b, err := io.ReadAll(uc)
 	cs.reply = b
 	cs.closed = err == nil
@@ -188,6 +196,35 @@ func suiteC05(c *ctx) {
 		cs.fullClose = r.Intn(25) == 0
 		cases = append(cases, cs)
 	}
+	// write timings far apart: a callback that takes seconds (a slow password hash, a loaded store)
+	// and a client that pauses for seconds inside its request still get their one reply. They run
+	// beside the batches (quick: shards 0..3, 7 s; thorough: every shard, 35 s).
+	var slow []*c05case
+	if c.shard < 4 || c.thorough() {
+		d := 7 * time.Second
+		if c.thorough() {
+			d = 35 * time.Second
+		}
+		q := &sasl.Request{Login: fmt.Sprintf("slow%d", c.shard), Password: "pw", Service: "imap", Realm: ""}
+		stream, _ := q.Marshal()
+		cs := &c05case{id: -1, reg: q.Login, out: cbOutcome{ok: c.shard%2 == 0, msg: []byte("slow but sure")}}
+		cut := 1 + c.r.Intn(len(stream)-1)
+		cs.chunks = [][]byte{stream[:cut], stream[cut:]}
+		if c.shard%4 < 2 {
+			cs.delayCb = d
+		} else {
+			cs.delayMid = d
+		}
+		slow = append(slow, cs)
+		srv.mu.Lock()
+		srv.reg[cs.reg] = cs
+		srv.mu.Unlock()
+	}
+	var slowWg sync.WaitGroup
+	for _, cs := range slow {
+		slowWg.Add(1)
+		go func(cs *c05case) { defer slowWg.Done(); c.runConn(sock, cs) }(cs)
+	}
 	// run in concurrent batches of up to 64 connections
 	for start := 0; start < len(cases); start += 64 {
 		end := min(start+64, len(cases))
@@ -203,6 +240,8 @@ func suiteC05(c *ctx) {
 		}
 		wg.Wait()
 	}
+	slowWg.Wait()
+	cases = append(cases, slow...)
 	srv.mu.Lock()
 	defer srv.mu.Unlock()
 	// attribute callback invocations: by registered login; calls with other logins are
